@@ -27,7 +27,7 @@ func init() {
 	register(&CheckDef{
 		ID:    "C01",
 		Title: "Reads return the latest acknowledged write",
-		Reach: []string{"done", "rotated", "batch-committed", "merged"},
+		Reach: []string{"done", "rotated", "batch-committed", "merged", "empty-key-rejected"},
 		Jobs: func(tier string) []JobSpec {
 			var js []JobSpec
 			add := func(name string, params map[string]int64) {
@@ -48,6 +48,7 @@ func init() {
 					add(fmt.Sprintf("skiplist-s1-keyfamily%d-k3", fam), merge(base, p("ckeys", fam, "k", 3, "ops", opPut|opDelete, "index", 2, "shards", 1, "vlens", 1)))
 				}
 				add("btree-s2-keyfamily1-k3", merge(base, p("ckeys", 1, "k", 3, "ops", opPut|opDelete, "index", 1, "shards", 2, "vlens", 1)))
+				add("hashmap-s1-empty-key-k3", merge(base, p("k", 3, "ops", opPut|opDelete, "index", 3, "shards", 1, "vlens", 2, "emptykey", 1)))
 				add("hashmap-s3-keyfamily2-k3", merge(base, p("ckeys", 2, "k", 3, "ops", opPut|opDelete, "index", 3, "shards", 3, "vlens", 1)))
 				add("btree-s3-sync-threshold-mmap-k2", merge(base, p("k", 2, "ops", opPut|opDelete, "index", 1, "shards", 3, "sync", 2, "io", 1, "vlens", 2)))
 			} else {
@@ -250,6 +251,8 @@ func init() {
 			// three keys over one vs two shards: the merged iteration (heap of per-shard iterators) has to agree
 			// with the single-shard one, including after a partial pass + Rewind and after Seek
 			add("three-keys-1-vs-2-shards", merge(base, p("pool", 3, "k", 3, "ops", opPut, "vlens", 1, "index", 1, "shards", 1, "b_index", 1, "b_shards", 2)))
+			add("skiplist-vs-btree-keyfamily1", merge(base, p("ckeys", 1, "k", 3, "ops", opPut|opDelete, "vlens", 1, "index", 2, "shards", 1, "b_index", 1, "b_shards", 2)))
+			add("skiplist-vs-hashmap-keyfamily4", merge(base, p("ckeys", 4, "k", 3, "ops", opPut|opDelete, "vlens", 1, "index", 2, "shards", 2, "b_index", 3, "b_shards", 1)))
 			if tier != "quick" {
 				add("three-keys-skiplist-2-vs-hashmap-3-shards", merge(base, p("pool", 3, "k", 4, "ops", opPut|opDelete, "vlens", 1, "index", 2, "shards", 2, "b_index", 3, "b_shards", 3)))
 			}
